@@ -299,7 +299,9 @@ ENTRY = {
                 dict(Y_full='dense', e='abs', r='int:rmax')],
     'svd.svd_matrix': [dict(Y_full='f[N,N]')],
     'svd.svd_incomplete': [dict(I='I[m,d]', Y='f[m]', idx='i[d+1]',
-                                idx_many='i[d]')],
+                                idx_many='i[d]'),
+                           dict(I='I[m,d]', Y='f[m]', idx='i[d+1]',
+                                idx_many='i[d]', r='int:rmax')],
     'tensors.const': [dict(n='shape', v='num:v'),
                       dict(n='shape', v='num:v', I_zero='I[k,d]'),
                       dict(n='shape', v='num:v', I_zero='I[k,d]',
